@@ -36,7 +36,9 @@ def utmp_bytes(recs):
     for i, r in enumerate(recs):
         out += struct.pack("hi32s4s32s256shhiii4i20s", UT[r["type"]], 4000 + i,
                            field(r["line"], 32, b"L"), b"id%d" % i, field(r["user"], 32, b"U"),
-                           field(r["host"], 256, b"H"), 0, 0, 1, 1700000000 + i, 0, 0, 0, 0, 0, b"")
+                           field(r["host"], 256, b"H"), 0, 0, 1, 1700000000 + i,
+                           # the sub-second part is whatever the writer left there
+                           (0, 999999, 1000000, 2147483647, -1, -2147483648, 123456)[(3 * i + len(recs)) % 7], 0, 0, 0, 0, b"")
     return out
 
 
